@@ -36,7 +36,7 @@ func init() {
 			"GetHandshakeLog (after the caller's own Handshake returned) / SetDeadline, SetReadDeadline, SetWriteDeadline (zero, far, near, past) / CloseWrite / Close, optional mid-transfer CloseWrite, Close or transport cut; " +
 			"writes are writer-tagged, sequence-numbered 8-byte cells so interleaved Write calls stay decodable; single-reader sessions check the exact stream, multi-reader sessions check per-fragment chunk structure, no duplicate / lost cell, per-reader order; " +
 			"after both transports are closed every goroutine must return. non-trivial = both handshakes completed, data delivered, >= 4 distinct kinds of operation pairs overlapped in time; distinct by (plan, set of overlapping pairs). race leg: same sessions under -race",
-		MinNontrivial:         60,
+		MinNontrivial:         200,
 		MinNontrivialThorough: 1500,
 		Shards:                8,
 		RaceShards:            8,
